@@ -217,6 +217,17 @@ pub struct F36 {
     pub b: Vec<u32>,
 }
 
+/// two lists whose element names are prefixes of each other, next to a third one
+#[derive(Debug, Clone, PartialEq, Serialize, Deserialize)]
+pub struct F37 {
+    #[serde(default)]
+    pub a: Vec<String>,
+    #[serde(default)]
+    pub ab: Vec<String>,
+    #[serde(default)]
+    pub d: Vec<u32>,
+}
+
 /// list items that hold a struct-valued (non-list) field, between two other lists
 #[derive(Debug, Clone, PartialEq, Serialize, Deserialize)]
 pub struct Meta35 {
@@ -382,7 +393,7 @@ pub struct H07 {
     pub v: Vec<Option<Choice>>,
 }
 
-pub const TYPES: &[&str] = &["F01", "F02", "F03", "F04", "F05", "F07", "F08", "F11", "F15", "F16", "F17", "F18", "F19", "F20", "F22", "F23", "F24", "F25", "F26", "F27", "F28", "F29", "F30", "F31", "F32", "F33", "F34", "F35", "F36", "H01", "H02", "H05", "H06", "H07"];
+pub const TYPES: &[&str] = &["F01", "F02", "F03", "F04", "F05", "F07", "F08", "F11", "F15", "F16", "F17", "F18", "F19", "F20", "F22", "F23", "F24", "F25", "F26", "F27", "F28", "F29", "F30", "F31", "F32", "F33", "F34", "F35", "F36", "F37", "H01", "H02", "H05", "H06", "H07"];
 
 /// Apply `$body` with `T` bound to the family type named `$name`.
 #[macro_export]
@@ -411,6 +422,7 @@ macro_rules! with_type {
             "F29" => { type $T = $crate::family::F29; $body }
             "F35" => { type $T = $crate::family::F35; $body }
             "F36" => { type $T = $crate::family::F36; $body }
+            "F37" => { type $T = $crate::family::F37; $body }
             "F30" => { type $T = $crate::family::F30; $body }
             "F31" => { type $T = $crate::family::F31; $body }
             "F32" => { type $T = $crate::family::F32; $body }
@@ -597,6 +609,16 @@ pub fn de_resolver(ty: &str, xml: &str, cuts: Option<&[usize]>) -> (Result<Value
     })();
     let got = cap.borrow().clone();
     (r, got)
+}
+
+/// Deserialize with from_reader over a chunked source that answers `Interrupted` once before EVERY piece
+pub fn de_reader_intr(ty: &str, xml: &[u8], cuts: &[usize]) -> Result<Value, String> {
+    with_type!(ty, T, {
+        let interrupts: Vec<(usize, usize)> = (0..xml.len() + 2).map(|i| (i, 1)).collect();
+        let src = crate::env::Chunked::new(xml, crate::env::Plan { cuts: cuts.to_vec(), interrupts, ..Default::default() });
+        let val: T = quick_xml::de::from_reader(src).map_err(|e| format!("{e:?}"))?;
+        Ok(serde_json::to_value(&val).unwrap())
+    })
 }
 
 /// Deserialize with an event buffer limit (overlapped lists)
